@@ -413,6 +413,9 @@ impl<const N: usize> Live<N> {
                     self.stop = true;
                     "refused-empty".to_string()
                 } else {
+                    if !self.hostile {
+                        c.fail(format!("[C03] add of {} non-empty buffers panicked under the caller contract (free descriptors {}, driver state {:?})", in_lens.len() + out_lens.len(), free_before, st_before));
+                    }
                     "panic".to_string()
                 }
             }
